@@ -65,7 +65,60 @@ def run(rep: C.Report):
     # release files: at most release_files_retries fetch rounds (full runs; generator and oracle of C11's loop tie)
     from .c11 import run_loop
     found |= run_loop(rep, 15 if rep.tier == "quick" else 600)
+    found |= run_crash_runs(rep, random.Random(rep.seed + 1212), 10 if rep.tier == "quick" else 300)
     C.proof_verdict(rep, found)
+
+
+def run_crash_runs(rep, rng, n):
+    """Every run terminates with an exit status - also when repositories CRASH (an index whose Size field is not a
+    number makes the parser raise): nthreads in {1, 2}, at least nthreads crashing repositories listed first, one or
+    two healthy ones after them.  The run must end (no deadlock, no endless waiting), exit 1, and the healthy
+    repositories must have been mirrored."""
+    from . import pipeline as P
+    from . import runs as R
+    found = False
+    sb = P.sandbox("vsb_c12c_")
+    try:
+        for i in range(n):
+            nth = rng.choice([1, 1, 2])
+            ncrash = nth + rng.choice([0, 1])
+            scn = P.gen_scenario(rng, nrepos=min(6, ncrash + rng.choice([1, 2])), small=True)
+            scn.nthreads = nth
+            crashing = []
+            for r in scn.repos[:ncrash]:
+                cn = next(iter(r["config"]["codenames"]))
+                for comp, cc in r["config"]["codenames"][cn].items():
+                    if cc["arches"] and comp in r["version"]["codenames"][cn]["components"]:
+                        a = cc["arches"][0]
+                        r["version"]["codenames"][cn]["components"][comp]["arches"].setdefault(a, []).append(
+                            {"name": "hostile", "version": "1", "size": "12x"})
+                        crashing.append(r["url"])
+                        break
+            base = sb / f"c{i}"
+            res = P.run_tool(scn, base)
+            healthy = [r["url"] for r in scn.repos if r["url"] not in crashing]
+            rep.case(("crash_run", nth, len(crashing), len(healthy), res.code, bool(res.nonterminating)),
+                     sample={"nthreads": nth, "crashing": crashing, "healthy": healthy, "exit": res.code, "exc": res.exc})
+            rep.count("crash_run")
+            jc = {"kind": "crash_run", "nthreads": nth, "crashing": crashing, "repos": scn.repos}
+            stuck = res.nonterminating or (res.exc and ("deadlock" in str(res.exc) or "virtual" in str(res.exc)))
+            if stuck:
+                found = True
+                rep.violation(f"nthreads={nth}, {len(crashing)} crashing repositories listed before {len(healthy)} healthy ones: "
+                              f"the run never completes ({res.exc})",
+                              {"kind": "oracle", "tie": "crash_run", "case": jc}, tags={"oracle": "termination"})
+            elif crashing and res.code == 0:
+                found = True
+                rep.violation(f"repositories {crashing} crash while their indices are parsed but the run exits 0",
+                              {"kind": "oracle", "tie": "crash_run", "case": jc}, tags={"oracle": "crash_exit"})
+            elif any(res.results.get(u) is not True for u in healthy):
+                found = True
+                rep.violation(f"healthy repositories listed after crashing ones were not mirrored: results {res.results}",
+                              {"kind": "oracle", "tie": "crash_run", "case": jc}, tags={"oracle": "crash_others"})
+            shutil.rmtree(base, ignore_errors=True)
+    finally:
+        shutil.rmtree(sb, ignore_errors=True)
+    return found
 
 
 def replay(rep: C.Report, path: str):
